@@ -193,7 +193,8 @@ fn mutate_json(rng: &mut Rng, text: &str) -> (String, String) {
                 return (text.to_string(), "none".into());
             }
             let k = cands[rng.below(cands.len())];
-            let (head, tail) = lines[k].split_once(':').unwrap();
+            let Some((head, tail)) = lines[k].split_once(':') else { return (text.to_string(), "none".into()) };
+            let (head, tail) = (head.to_string(), tail.to_string());
             let comma = if lines[k].trim_end().ends_with(',') { "," } else { "" };
             if rng.chance(1, 2) {
                 // a number close to the valid one: off by a little, or the other sign
@@ -218,7 +219,8 @@ fn mutate_json(rng: &mut Rng, text: &str) -> (String, String) {
                 return (text.to_string(), "none".into());
             }
             let k = cands[rng.below(cands.len())];
-            let (head, _) = lines[k].split_once(':').unwrap();
+            let Some((head, _)) = lines[k].split_once(':') else { return (text.to_string(), "none".into()) };
+            let head = head.to_string();
             let comma = if lines[k].trim_end().ends_with(',') { "," } else { "" };
             lines[k] = format!("{}: {}{}", head, rng.pick(&TEMPIDS[..]), comma);
             "temporary-id"
@@ -230,7 +232,8 @@ fn mutate_json(rng: &mut Rng, text: &str) -> (String, String) {
                 return (text.to_string(), "none".into());
             }
             let k = cands[rng.below(cands.len())];
-            let (head, _) = lines[k].split_once(':').unwrap();
+            let Some((head, _)) = lines[k].split_once(':') else { return (text.to_string(), "none".into()) };
+            let head = head.to_string();
             let comma = if lines[k].trim_end().ends_with(',') { "," } else { "" };
             lines[k] = format!("{}: \"{}\"{}", head, rng.pick(&TYPES[..]), comma);
             "retype"
@@ -242,7 +245,8 @@ fn mutate_json(rng: &mut Rng, text: &str) -> (String, String) {
                 return (text.to_string(), "none".into());
             }
             let k = cands[rng.below(cands.len())];
-            let (head, _) = lines[k].split_once(':').unwrap();
+            let Some((head, _)) = lines[k].split_once(':') else { return (text.to_string(), "none".into()) };
+            let head = head.to_string();
             let comma = if lines[k].trim_end().ends_with(',') { "," } else { "" };
             lines[k] = format!("{}: \"{}\"{}", head, strings[rng.below(strings.len())], comma);
             "rewire-reference"
@@ -252,7 +256,8 @@ fn mutate_json(rng: &mut Rng, text: &str) -> (String, String) {
             if !lines[i].contains(':') {
                 return (text.to_string(), "none".into());
             }
-            let (head, _) = lines[i].split_once(':').unwrap();
+            let Some((head, _)) = lines[i].split_once(':') else { return (text.to_string(), "none".into()) };
+            let head = head.to_string();
             let comma = if lines[i].trim_end().ends_with(',') { "," } else { "" };
             lines[i] = format!("{}: {}{}", head, rng.pick(&["null", "[]", "{}", "\"\"", "[[]]", "0", "{\"@type\": \"TextSelector\"}"]), comma);
             "retype-value"
